@@ -18,7 +18,13 @@ func main() {
 		if p.N >= 3 && (p.P >= 3 || p.P <= 0) {
 			sw = 3
 		}
-		scs = append(scs, mcx.Scenario{Name: p.Name(), Body: p.Body(), Cfg: mc.Config{GOMAXPROCS: p.Procs}, Bound: 3, ThoroughBound: 4, SwitchBound: sw, Family: "par/" + p.Variant, MaxTime: 3 * time.Minute})
+		sc := mcx.Scenario{Name: p.Name(), Body: p.Body(), Cfg: mc.Config{GOMAXPROCS: p.Procs}, Bound: 3, ThoroughBound: 4, SwitchBound: sw, Family: "par/" + p.Variant, MaxTime: 3 * time.Minute}
+		if p.N >= 17 {
+			sc.Bound, sc.ThoroughBound, sc.SwitchBound = 0, 1, 1
+		} else if p.N >= 5 {
+			sc.Bound, sc.ThoroughBound, sc.SwitchBound = 1, 2, 2
+		}
+		scs = append(scs, sc)
 	}
 	mcx.Main("C13", scs, []string{
 		"every call of f contains one scheduling point between its start and its end, so every relative order of call starts and ends is reachable (all latency patterns)",
